@@ -236,7 +236,7 @@ func init() {
 		},
 		Run: runC16,
 		Floors: func(tier string) map[string]int64 {
-			return map[string]int64{"repetitions": 2500, "list_results_with_5plus": 40, "isolation_pairs": 30, "interleavings_mid_execution": 30}
+			return map[string]int64{"repetitions": 2500, "list_results_with_5plus": 40, "isolation_pairs": 30, "interleavings_mid_execution": 10}
 		},
 	})
 }
